@@ -12,11 +12,12 @@
 (* from disk only.  FixedCode = TRUE models fixes/C31-*.patch.              *)
 EXTENDS IndexerWindow, Sequences, FiniteSetsExt, SequencesExt
 
-CONSTANTS Heights, FixedCode
+CONSTANTS Heights, FixedCode,
+          FlushEvery   \* storeBlock commits its batch once this many blocks are pending; the code: 1 (every Notify)
 
-VARIABLES cacheH, cacheId, cacheTx, disk, lastH, stable
+VARIABLES cacheH, cacheId, cacheTx, disk, buf, lastH, stable   \* buf: heights whose put/delete is not committed yet
 
-ivars == <<cacheH, cacheId, cacheTx, disk, lastH, stable>>
+ivars == <<cacheH, cacheId, cacheTx, disk, buf, lastH, stable>>
 vars  == <<wvars, ivars>>
 
 (* insertBlockIntoCache on st = [H, Id, Tx, last].  h - w below zero is the uint64 wrap: never a cached height.  *)
@@ -43,26 +44,32 @@ ITx(cH, cT, h)          == IF h \in cT /\ h \in cH THEN h ELSE -1
 ILatest(cH, lh)         == IF lh = -1 THEN -1 ELSE IByHeight(cH, lh)
 Answers(cH, cI, cT, lh) == [h \in Heights |-> <<IByHeight(cH, h), IById(cH, cI, h), ITx(cH, cT, h)>>] @@ (-1 :> <<ILatest(cH, lh)>>)
 
+RECURSIVE Commit(_, _)
+Commit(d, hs) == IF hs = <<>> THEN d ELSE Commit((d \cup {Head(hs)}) \ {Head(hs) - w}, Tail(hs))
+
 Init(win) ==
   /\ WInit(win)
-  /\ cacheH = {} /\ cacheId = {} /\ cacheTx = {} /\ disk = {} /\ lastH = -1 /\ stable = TRUE
+  /\ cacheH = {} /\ cacheId = {} /\ cacheTx = {} /\ disk = {} /\ buf = <<>> /\ lastH = -1 /\ stable = TRUE
 
 Notify(h) ==
   LET st == Insert([H |-> cacheH, Id |-> cacheId, Tx |-> cacheTx, last |-> lastH], h)
   IN /\ WNotify(h)
      /\ cacheH' = st.H /\ cacheId' = st.Id /\ cacheTx' = st.Tx /\ lastH' = st.last
-     /\ disk' = (disk \cup {h}) \ {h - w}                 \* storeBlock: put h, delete h - w
+     /\ LET nb == Append(buf, h)                            \* storeBlock: put h, delete h - w, in a batch
+        IN IF Len(nb) >= FlushEvery THEN disk' = Commit(disk, nb) /\ buf' = <<>>
+                                    ELSE disk' = disk /\ buf' = nb
      /\ stable' = TRUE
 
 Restart ==
-  LET st == Replay([H |-> {}, Id |-> {}, Tx |-> {}, last |-> -1], Ascending(disk))
+  LET d0 == Commit(disk, buf)                                          \* Close commits whatever is pending
+      st == Replay([H |-> {}, Id |-> {}, Tx |-> {}, last |-> -1], Ascending(d0))
       pr == IF st.last = -1 THEN {}                                     \* empty store: the range delete finds nothing
             ELSE IF FixedCode
-              THEN (IF st.last >= w THEN {x \in disk : x <= st.last - w} ELSE {})
-              ELSE (IF st.last > w THEN {x \in disk : x < st.last - w} ELSE {})
+              THEN (IF st.last >= w THEN {x \in d0 : x <= st.last - w} ELSE {})
+              ELSE (IF st.last > w THEN {x \in d0 : x < st.last - w} ELSE {})
   IN /\ WRestart
      /\ cacheH' = st.H /\ cacheId' = st.Id /\ cacheTx' = st.Tx /\ lastH' = st.last
-     /\ disk' = disk \ pr
+     /\ disk' = d0 \ pr /\ buf' = <<>>
      /\ stable' = (Answers(st.H, st.Id, st.Tx, st.last) = Answers(cacheH, cacheId, cacheTx, lastH))
 
 -----------------------------------------------------------------------------
@@ -77,6 +84,12 @@ ServesExactlyWindow ==
   /\ ILatest(cacheH, lastH) = Latest
 
 RestartStable == stable
+
+(* crash points: the process may die (no Close) between any two public calls; every Notify that returned is    *)
+(* durable, i.e. an indexer opened on what is on disk right now answers exactly like the live one             *)
+CrashDurable ==
+  LET st == Replay([H |-> {}, Id |-> {}, Tx |-> {}, last |-> -1], Ascending(disk))
+  IN Answers(st.H, st.Id, st.Tx, st.last) = Answers(cacheH, cacheId, cacheTx, lastH)
 
 (* design-level: everything served is on disk (so a restart can serve it again); the disk may hold stale    *)
 (* heights after a gap until the next restart prunes them, but never more than were ever in a window       *)
